@@ -9,7 +9,7 @@ dune/common/math.hh and fvector.hh.   Core Lean only.
 * `power`, `factorial`, `binomial` over `Int` with an explicit machine-width check `chk` on **every**
   intermediate value (result `none` = some intermediate is not representable in the C++ type);
   `binomial` is the code after `fixes/C17_binomial_overflow.patch`; `binomialOld` is the algorithm of the
-  unrepaired tree, kept to state the defect;
+  unrepaired tree, kept to state the defect; `round` is the code after `fixes/C17_round_unsigned.patch`;
 * `sign`; the classifiers `isNaN / isInf / isFinite / isUnordered` over `FieldVector` and `std::complex`.
 -/
 import DuneVerif.Gen.C17
@@ -71,19 +71,21 @@ def neFV (s : Style) (a b : List K) (e : K) : Bool := !(eqFV s a b e)
 /-! ### round / trunc   (`tr` is the C++ conversion `I(val)`, the cast `((i : Int) : K)` is `T(i)`) -/
 variable [IntCast K]
 
-/-- `round_t<I, T, cstyle, downward>::round` -/
+/-- `round_t<I, T, cstyle, downward>::round` (after fixes/C17_round_unsigned.patch: the distance to the integer
+    below is `val - (T(upper) - T(1))`).  The integer variables are mathematical integers; for an unsigned `I` and
+    `val` in (-1,0) the C++ `lower` wraps around to the largest value of `I`, which stands for `-1` here. -/
 def roundDown (s : Style) (tr : K → Int) (val eps : K) : Int :=
   let lower := tr val
   if eqS s (lower : K) val eps then lower else
   let lu : Int × Int := if (lower : K) > val then (lower - 1, lower) else (lower, lower + 1)
-  if leS s (val - (lu.1 : K)) ((lu.2 : K) - val) eps then lu.1 else lu.2
+  if leS s (val - ((lu.2 : K) - ((1 : Int) : K))) ((lu.2 : K) - val) eps then lu.1 else lu.2
 
 /-- `round_t<I, T, cstyle, upward>::round` -/
 def roundUp (s : Style) (tr : K → Int) (val eps : K) : Int :=
   let lower := tr val
   if eqS s (lower : K) val eps then lower else
   let lu : Int × Int := if (lower : K) > val then (lower - 1, lower) else (lower, lower + 1)
-  if ltS s (val - (lu.1 : K)) ((lu.2 : K) - val) eps then lu.1 else lu.2
+  if ltS s (val - ((lu.2 : K) - ((1 : Int) : K))) ((lu.2 : K) - val) eps then lu.1 else lu.2
 
 def round (s : Style) : RStyle → (K → Int) → K → K → Int
   | .downward, tr, val, eps => roundDown s tr val eps
